@@ -16,6 +16,7 @@ RULE = (
     "Legal children assignments with 300 (thorough: 1000) children under both assertion settings. "
     "Generated: Hypothesis histories (<= 7 nodes, <= 30 calls) over 13 class mixes (incl. links whose targets are nodes of the same universe) with random fault plans. Non-trivial = the call "
     "changed at least one link, or raised after at least one hook had run. Enumerated cases distinct by construction; histories hashed."
+    ' Also (rounds 8-9): hooks that evict/re-file nodes or re-home the receiving node, hooks that read the whole forest, vetoes as AssertionError/TreeError/KeyError subclasses.'
 )
 ASSUMPTIONS = [
     "the invariant is evaluated through the public .parent/.children of every object reachable from the universe",
